@@ -43,9 +43,12 @@ W1 = 'def w1 { splitters: uid return "p" weighted 1, "q" weighted 1, "r" weighte
 W2 = 'def w2 { splitters: uid return "only" weighted 9 }'
 BAD = {"BAD_PY": BAD_PY, "BAD_KW": BAD_KW, "BAD_SYN": BAD_SYN}
 def _nested(tag, d):
+    """d nested ifs; the predicates use every comparison and boolean operator in turn (tables filled lazily per operator)
+    and are true exactly when f<k> == 1"""
+    forms = ["f{k} == 1", "not f{k} != 1", "f{k} in (1, 7)", "f{k} not in (0, 2)", "f{k} >= 1 and f{k} <= 1", "f{k} > 0 or f{k} < 0", "not (f{k} < 1)", "1 == f{k}"]
     c = f'return "{tag}" weighted 1'
     for k in reversed(range(d)):
-        c = f'if f{k} == 1 {{ {c} }} else {{ return "{tag}e{k}" weighted 1 }}'
+        c = f'if {forms[k % len(forms)].format(k=k)} {{ {c} }} else {{ return "{tag}e{k}" weighted 1 }}'
     return f"def exp_{tag} {{ splitters: uid {c} }}"
 
 
